@@ -532,4 +532,22 @@ Proof.
     { repeat split; try assumption. intros H. apply verid_eqb_eq in H. congruence. }
     destruct (stale_round c x Hc Hst) as [c1 [Hr1 _]]. rewrite Hr1 in Hr. discriminate.
 Qed.
+
+(* the composed round: whatever number of attempts the sender makes per call, 4 calls suffice *)
+Lemma attempts_rounds : forall m n c c2, rounds n c k = true -> attempts truth cur_of pd budget fuel m c k = (false, c2) ->
+  (S m < n)%nat /\ rounds (n - S m) c2 k = true.
+Proof.
+  induction m as [|m IH]; intros n c c2 Hr Ha; cbn [attempts] in Ha; destruct n as [|n]; try discriminate;
+    cbn [Converge.rounds] in Hr; destruct (round c k) as [ok c1]; destruct ok; try discriminate.
+  - injection Ha as <-. destruct n as [|n]; [discriminate|]. split; [lia|]. replace (S (S n) - 1)%nat with (S n) by lia. exact Hr.
+  - destruct (IH n c1 c2 Hr Ha) as [H1 H2]. split; [lia|]. replace (S n - S (S m))%nat with (n - S m)%nat by lia. exact H2.
+Qed.
+Lemma srounds_of_rounds inner : forall n j i c, (j <= n)%nat -> rounds j c k = true -> srounds truth cur_of pd budget fuel inner n i c k = true.
+Proof.
+  induction n as [|n IH]; intros j i c Hj Hr; [destruct j; [discriminate|lia]|]. cbn [srounds].
+  destruct (attempts truth cur_of pd budget fuel (inner i) c k) as [ok c2] eqn:Ea. destruct ok; [reflexivity|].
+  destruct (attempts_rounds _ _ _ _ Hr Ea) as [H1 H2]. apply (IH (j - S (inner i))%nat); [lia|exact H2].
+Qed.
+Lemma converges_composed inner c : cinv c -> srounds truth cur_of pd budget fuel inner 4 0 c k = true.
+Proof. intros Hc. apply (srounds_of_rounds inner 4 4 0 c (Nat.le_refl 4)). apply converges. exact Hc. Qed.
 End Conv.
